@@ -641,7 +641,19 @@ def coll_src(t, depth=0):
         return coll(t, depth)
     except NotAComprehension:
         s = canon(t)
+        if _returns_option(s):
+            # an Option iterated (`opt.into_iter().chain(..)`): its value when it is Some, nothing otherwise
+            return [((), ((frozenset({("is", s, "Option::Some")}), ("proj", s, (("Option::Some", "0"),))),))]
         return [((s,), ((frozenset(), ("at", s)),))]
+
+
+def _returns_option(s):
+    """s is a call of a function of the crate whose declared result is an Option"""
+    if FACTS is None or not (isinstance(s, tuple) and s[:1] == ("call",) and len(s) == 3 and isinstance(s[1], str)):
+        return False
+    from .flow import short
+    hits = [bs[0] for dp, bs in FACTS.bodies.items() if len(bs) == 1 and short(dp) == s[1]]
+    return len(hits) == 1 and str(hits[0].get("ret_ty", "")).startswith("std::option::Option<")
 
 
 def canon(t):
